@@ -469,6 +469,13 @@ def check_deferred_predicate(prog, run, rule_id):
                         name = ast.unparse(c.func)
                         if name in ("isinstance", "len", "callable") or name.endswith("function") or name.endswith("callable"):
                             continue
+                        # a module-level alias of the same function is the same predicate
+                        if isinstance(c.func, ast.Name):
+                            rr = prog.resolve_name(mod, c.func.id)
+                            if rr and rr[0] == "func":
+                                name = rr[1].name
+                            elif rr and rr[0] == "assign" and isinstance(rr[1], ast.Name):
+                                name = rr[1].id
                         preds.setdefault(name, []).append((f, n, c))
                         r.instance("%s: %s tests `%s`" % (modname.split(".")[-1], f.qualname, ast.unparse(c)))
         if not preds:
